@@ -36,6 +36,16 @@ def improving_deviation(desc, a):
     return None
 
 
+def classify(case, out):
+    """Known finding C04-mgm2-aborted-pair: an MGM2 cycle in which a committed pair aborted its coordinated move
+    (a go?=False message was sent in that very cycle).  Committed partners give up their unilateral moves and
+    pairs never win ties (strict '>' against neighbours' gains) while single variables defer to the lexically
+    smaller tied neighbour, so a tie between a pair and a neighbour blocks everybody."""
+    if case["algo"] == "mgm2" and out.info.get("phase") == "1opt" and out.info.get("nogo_in_cycle"):
+        return "C04-mgm2-aborted-pair"
+    return None
+
+
 def run_case(case):
     desc = case["dcop"]
     labels = []
@@ -55,9 +65,11 @@ def run_case(case):
             if dev:
                 n, val, base, c = dev
                 isolated = not an.nb[n]
+                nogo = any(getattr(m, "type", None) == "go?" and not getattr(m, "go", True) and cyc == c0
+                           for _, _, _, _, m, cyc in an.run.net.trace)
                 return Outcome(False, "%s(%s): no variable moved in cycle %d at %r (cost %r) but %s=%r alone gives %r"
                                % (case["algo"], desc["objective"], c0, snaps[c0], base, n, val, c), nontrivial, labels,
-                               info={"phase": "1opt", "var": n, "isolated": isolated,
+                               info={"phase": "1opt", "var": n, "isolated": isolated, "nogo_in_cycle": nogo,
                                      "coordinated": bool(an.coordinated)})
     except UnderTestError as e:
         return Outcome(False, "raised %s at %s" % (e, e.frame), True, labels, info={"exc": e.exc_type})
